@@ -120,6 +120,14 @@ func checkConfigCompatibility(
 		}
 	}
 
+	{
+		// log records are reference-counted by the number of outputs and may outlive the reload
+		oldNum := len(oldConf.OutputBuffersPairs)
+		newNum := len(newConf.OutputBuffersPairs)
+		if oldNum != newNum {
+			return fmt.Errorf("outputBufferPairs: the number of outputs must not change: old=%d, new=%d", oldNum, newNum)
+		}
+	}
 	// check schema fields last because other comparisons are more verbose
 	{
 		for _, field := range oldStats.FixedFields {
